@@ -121,8 +121,8 @@ type crashBucket struct {
 	overrun bool
 	onMut   func(kind, name string)
 	fault    *bucketFault // shared across restarts: an outage does not end because the compactor restarted
-	attempts int          // mutating calls attempted (failed ones included)
-	maxTries int
+	attempts int // mutating calls attempted (failed ones included)
+	maxTries int // bound on the injected failures one scenario may run into
 }
 
 // inject decides whether this mutating call fails because of the selective fault.
@@ -130,9 +130,6 @@ func (b *crashBucket) inject(kind, name string, r io.Reader) bool {
 	b.mu.Lock()
 	defer b.mu.Unlock()
 	b.attempts++
-	if b.maxTries > 0 && b.attempts > b.maxTries {
-		b.overrun = true
-	}
 	f := b.fault
 	if f == nil {
 		return false
@@ -154,6 +151,9 @@ func (b *crashBucket) inject(kind, name string, r io.Reader) bool {
 	}
 	if hit {
 		f.failed++
+		if b.maxTries > 0 && f.failed > b.maxTries {
+			b.overrun = true // a compactor that keeps running into the same outage without ever giving up
+		}
 	}
 	return hit
 }
@@ -512,7 +512,7 @@ func (e *c29Env) runCompact(crashAt int) (*crashBucket, error) {
 	cb := &crashBucket{Bucket: e.raw, crashAt: crashAt, budget: 80, onMut: e.onMut, fault: e.fault}
 	timeout := 60 * time.Second
 	if e.fault != nil {
-		cb.maxTries, timeout = 40, 30*time.Second // a compactor that keeps retrying against an outage is cut short
+		cb.maxTries, timeout = 12, 30*time.Second // a compactor that keeps retrying against an outage is cut short
 	}
 	bc, err := e.newCompactor(cb)
 	if err != nil {
@@ -734,7 +734,7 @@ func runC29(c *hlib.Ctx, ranges []int64, vertical bool, dd int64, blocks []c29Bl
 		n = cb.mutOps
 		switch {
 		case cb.overrun:
-			c.Violation("no-termination", fmt.Sprintf("%s: Compact() performed more than %d mutating bucket operations (or %d attempts under an injected fault)", name, cb.budget, cb.maxTries))
+			c.Violation("no-termination", fmt.Sprintf("%s: Compact() performed more than %d mutating bucket operations (or ran into the injected fault more than %d times)", name, cb.budget, cb.maxTries))
 			status = append(status, name+"=overrun")
 			return n, false, fault == nil
 		case cb.crashed:
